@@ -51,6 +51,30 @@ pub const POOL: &[&str] = &[
     "$ == 5 ?> 1 |> ^~ 5",
     "k ?> ^~ 9 |> $ + 1",
     "$ == 5 && $? || ^~ 5",
+    // constants of every interned kind in every order: a later program that spells a constant an earlier one already
+    // stored must get that constant, wherever it sits among the earlier program's other constants
+    "7 2.5",
+    "7 \"cd\"",
+    "7 'ab'",
+    "7 :s",
+    "2.5 7",
+    "2.5 \"cd\"",
+    "2.5 'ab'",
+    "2.5 :s",
+    "\"cd\" 7",
+    "\"cd\" 2.5",
+    "\"cd\" 'ab'",
+    "\"cd\" :s",
+    "'ab' 7",
+    "'ab' 2.5",
+    "'ab' \"cd\"",
+    "'ab' :s",
+    ":s 7",
+    ":s 2.5",
+    ":s \"cd\"",
+    ":s 'ab'",
+    "$ == 1 ?> 'cd' |> 'ab'",
+    "'ab' 'ab' \"cd\" \"cd\"",
 ];
 
 #[derive(Clone, PartialEq, Debug)]
